@@ -426,6 +426,8 @@ def gen_scripts(rng, n):
         opts = {}
         if k % 4 == 0:          # make sure every device kind and every hoistable kind is forced regularly
             opts["force_kinds"] = [kinds[(k // 4) % len(kinds)]]
+            # where the devices stand before the main loop: first / alternating with the globals / below the functions that drive them
+            opts["layout"] = ["default", "interleave", "fns_before_devices"][(k // 4) % 3]
         if k % 4 == 1:
             opts["force_hoist"] = [G.HOISTABLE[(k // 4) % len(G.HOISTABLE)]]
         if k % 4 == 2:          # several instances per device kind, kinds interleaved, a hoistable kind both before and in the loop;
